@@ -479,8 +479,19 @@ func checkInterp(c interpCase) *vk.Failure {
 		switch {
 		case !endsOK:
 		case c.Type == tNatural:
-			tolL := 64*vk.Eps*first.scale(first.dx)/(first.dx*first.dx) + 2*first.e2
-			tolR := 64*vk.Eps*last.scale(last.dx)/(last.dx*last.dx) + 2*last.e2 + 6*last.e3*last.dx
+			// The end second derivatives come out of the solve of the global
+			// tridiagonal system, so their rounding error scales with the largest
+			// second-derivative scale of any segment, not with that of the end
+			// segment (a nearly straight first segment next to a strongly curved
+			// one: y''(left) = 2.4e-17 against a local tolerance of 9e-18).
+			gW2 := 0.0
+			for _, sg := range segs {
+				if sg.ok {
+					gW2 = math.Max(gW2, sg.scale(sg.dx)/(sg.dx*sg.dx))
+				}
+			}
+			tolL := 64*vk.Eps*gW2 + 2*first.e2
+			tolR := 64*vk.Eps*gW2 + 2*last.e2 + 6*last.e3*last.dx
 			calib("interp-natural-bc", math.Max(math.Abs(first.der2(0))/tolL, math.Abs(last.der2(last.dx))/tolR))
 			if !(math.Abs(first.der2(0)) <= tolL) || !(math.Abs(last.der2(last.dx)) <= tolR) {
 				return vk.Failf("natural-boundary-condition", "%s: y''(left end)=%v (tol %.3g), y''(right end)=%v (tol %.3g)", desc, first.der2(0), tolL, last.der2(last.dx), tolR)
